@@ -361,7 +361,7 @@ def r6_5(ctx):
     srcs, helpers = source_calls(prog, f)
     bodies = [(f, [s for s in srcs if s[2] is None])] + [(h, [(bb, t, None) for bb, t in h.calls() if is_lines_next(t)]) for h in helpers.values()]
     for body, direct in bodies:
-        incs = _increments(body, "line_index")
+        incs = _increments(body, prog.field_by_type("MarkdownIterator", "usize", "line_index"))
         other = [i for i in incs if len(i) == 3]
         ctx.check(not other, "counter-writes:" + body.name, body.where(), "line_index is only ever incremented by one", "line_index is written as %s" % other)
         events = {}
@@ -394,7 +394,7 @@ def r6_5(ctx):
                 n += 1
                 src = peel(o.operand(st["rv"]["ops"][0]))
                 good = src.kind == "field" and src.a == "0" and src.kids[0].kind == "bin" and src.kids[0].a in ("SubWithOverflow", "Sub") \
-                    and peel(src.kids[0].kids[0]).kind == "field" and peel(src.kids[0].kids[0]).a == "line_index" \
+                    and peel(src.kids[0].kids[0]).kind == "field" and peel(src.kids[0].kids[0]).a == ctx.prog.field_by_type("MarkdownIterator", "usize", "line_index") \
                     and src.kids[0].kids[1].kind == "const" and src.kids[0].kids[1].a.as_int() == 1
                 ctx.check(good, "stored-number#%d" % n, stmt_loc(f, bi, si), "the number stored with a token line is line_index - 1 (0-based index of that line)",
                           "a token line is numbered %s" % src.show()[:80])
@@ -423,16 +423,19 @@ def r6_7(ctx):
     if len(tcs) != 1:
         raise AnchorError("end_testcase constructs %d TestCase values" % len(tcs))
     eb, si, rv = tcs[0]
-    want = {"shell_expression": lambda s: "join" in s and ".command" in s and '"\\n"' in s,
-            "expectations": lambda s: ".expectations" in s,
-            "exit_code": lambda s: s.endswith(".exit_code"),
-            "config": lambda s: ".config" in s,
-            "title": lambda s: ".title" in s,
-            "line_number": lambda s: "output_start_index" in s and "AddWithOverflow" in s and ", 1_usize" in s}
+    fb = lambda ty, dflt: prog.field_by_type("LineParser", ty, dflt)  # noqa: E731 - parser state fields bound by type
+    F_CMD, F_EXP, F_EXIT = fb("Vec<String>", "command"), fb("Vec<Expectation>", "expectations"), fb("Option<i32>", "exit_code")
+    F_CFG, F_TITLE, F_START = fb("Option<TestCaseConfig>", "config"), fb("Option<String>", "title"), fb("Option<usize>", "output_start_index")
+    want = {"shell_expression": lambda s: "join" in s and ("." + F_CMD) in s and '"\\n"' in s,
+            "expectations": lambda s: ("." + F_EXP) in s,
+            "exit_code": lambda s: s.endswith("." + F_EXIT),
+            "config": lambda s: ("." + F_CFG) in s,
+            "title": lambda s: ("." + F_TITLE) in s,
+            "line_number": lambda s: F_START in s and "AddWithOverflow" in s and ", 1_usize" in s}
     for fld, op in zip(rv["fields"], rv["ops"]):
         shown = oe.operand(op).show()
         ctx.check(want[fld](shown) if fld in want else False, "testcase-field:" + fld, stmt_loc(e, eb, si),
-                  "TestCase.%s is built from the parser state of the same name" % fld, "TestCase.%s is built from %s" % (fld, shown[:120]))
+                  "TestCase.%s is built from the corresponding parser state" % fld, "TestCase.%s is built from %s" % (fld, shown[:120]))
     pushes = [bb2 for bb2, t2 in e.calls() if mname(t2) == "Vec::push" and "testcases" in oe.operand(t2["args"][0]).show()]
     ctx.check(len(pushes) == 1, "one-push", e.where(), "end_testcase pushes exactly one TestCase")
 
